@@ -15,7 +15,10 @@ pub const ENVS: &[S] = &[
 pub const LOOKALIKE_ENVS: &[S] = &[
     "bpaf_v_a", "BPAF_V_A_", "BPAF_V", "BPAF_V_AA", "ALPHA", "alpha", "BETA", "A", "B", "NO_COLOR",
     "FORCE_COLOR", "CLICOLOR", "CLICOLOR_FORCE", "TERM", "COLUMNS", "LINES", "HOME", "USER", "PATH",
-    "COMP_LINE", "COMP_WORDS", "RUST_BACKTRACE", "LANG", "LC_ALL",
+    "COMP_LINE", "COMP_WORDS", "RUST_BACKTRACE", "LANG", "LC_ALL", "LC_CTYPE", "POSIXLY_CORRECT",
+    "GETOPT_COMPATIBLE", "COLORTERM", "TERM_PROGRAM", "CI", "DEBUG", "RUST_LOG", "SHELL", "PWD",
+    "TMPDIR", "EDITOR", "PAGER", "MANWIDTH", "XDG_CONFIG_HOME", "HOSTNAME", "LOGNAME", "TZ", "IFS",
+    "BPAF_DEBUG", "BPAF_COMPLETE", "CARGO", "CARGO_PKG_NAME", "CARGO_PKG_VERSION", "_",
 ];
 /// every variable name any generator may use or touch, with its upper- and lower-case forms
 pub fn all_env_names() -> Vec<&'static str> {
